@@ -827,8 +827,6 @@ impl Overlay {
             anyhow::bail!("Store is poisoned due to prior error");
         }
 
-        let marker = self.mark_committed();
-
         {
             let mut shared = nomt.shared.lock();
             if shared.root != self.prev_root() {
@@ -839,7 +837,8 @@ impl Overlay {
                 );
             }
             shared.root = root;
-            shared.last_commit_marker = Some(marker);
+            // only an accepted overlay counts as committed for its descendants.
+            shared.last_commit_marker = Some(self.mark_committed());
         }
 
         if let Some(rollback_delta) = rollback_delta {
@@ -893,8 +892,6 @@ impl Overlay {
             anyhow::bail!("Store is poisoned due to prior error");
         }
 
-        let marker = self.mark_committed();
-
         {
             let mut shared = nomt.shared.lock();
             if shared.root != self.prev_root() {
@@ -905,7 +902,8 @@ impl Overlay {
                 );
             }
             shared.root = root;
-            shared.last_commit_marker = Some(marker);
+            // only an accepted overlay counts as committed for its descendants.
+            shared.last_commit_marker = Some(self.mark_committed());
         }
 
         if let Some(rollback_delta) = rollback_delta {
